@@ -43,6 +43,10 @@ struct Cfg {
     streams: Vec<(Tag, usize, Vec<Op>, Vec<Op>)>,
     rd: [usize; 2],
     horizon: u64,
+    /// `max_write_buffer_size` of both WebSockets (0 = tungstenite's default, unlimited). With a limit a message that
+    /// does not fit is refused by the transport and the connection ends: then only the safety half of the statement is
+    /// judged (what is read is a prefix of what was accepted; no early end-of-stream behind a clean shutdown)
+    wlimit: usize,
 }
 
 fn describe(c: &Cfg) -> String {
@@ -53,6 +57,7 @@ fn describe(c: &Cfg) -> String {
 fn build(c: &Cfg) -> World {
     let a = SideCfg { opts: opts(c.a.0, c.a.1).stream_buffer_size(4), rng: vec![] };
     let b = SideCfg { opts: opts(c.b.0, c.b.1).stream_buffer_size(4), rng: vec![] };
+    let _limit = crate::apps::WsWriteLimit::set(c.wlimit);
     let mut w = World::two_tungstenite(if c.cap == 0 { UNBOUNDED_BYTES } else { c.cap }, &a, &b);
     let end = |ops: &Vec<Op>, side: usize| {
         let mut wr = ops.clone();
@@ -81,6 +86,9 @@ struct Ledger {
 
 impl Ledger {
     fn check(&mut self, w: &World, viol: &mut Vec<(String, String)>) {
+        self.check_with(w, viol, false)
+    }
+    fn check_with(&mut self, w: &World, viol: &mut Vec<(String, String)>, connection_may_end: bool) {
         let obs = w.obs.borrow();
         for ((tag, dir), d) in &obs.dirs {
             let v = self.verified.entry((*tag, *dir)).or_insert(0);
@@ -100,10 +108,10 @@ impl Ledger {
             } else {
                 *v = n;
             }
-            if d.eof && d.shutdown && d.read.len() < d.written.len() {
+            if d.eof && d.shutdown && d.read.len() < d.written.len() && !connection_may_end {
                 push_viol(viol, "tung.integrity.eof-early", format!("stream {tag} dir {dir}: reader saw end-of-stream after {} bytes but {} were accepted before the clean shutdown", d.read.len(), d.written.len()));
             }
-            if let Some(e) = d.read_err.as_ref().or(d.write_err.as_ref()) {
+            if let (false, Some(e)) = (connection_may_end, d.read_err.as_ref().or(d.write_err.as_ref())) {
                 push_viol(viol, "tung.integrity.io-error", format!("stream {tag} dir {dir}: a read or write failed with {e} although nothing ends the connection"));
             }
         }
@@ -136,7 +144,7 @@ fn exec(c: &Cfg, render: bool) -> RunOutput {
         };
         let step = en[ch].clone();
         w.sim.apply(&step);
-        led.check(&w, &mut viol);
+        led.check_with(&w, &mut viol, c.wlimit > 0);
         let mut h = Fnv::default();
         {
             let l = pipe.lock();
@@ -205,7 +213,9 @@ fn exec(c: &Cfg, render: bool) -> RunOutput {
     if !blocked {
         let obs = w.obs.borrow();
         for ((tag, dir), d) in &obs.dirs {
-            if d.shutdown && d.eof {
+            // (where the transport may refuse a message the connection ends by an error: end-of-stream is then owed
+            // to the reader whatever the writer had queued, and only the prefix relation is judged)
+            if d.shutdown && d.eof && c.wlimit == 0 {
                 if d.read != d.written {
                     push_viol(&mut viol, "tung.integrity.final-equality", format!("stream {tag} dir {dir}: writer shut down cleanly after {} bytes, reader reached end-of-stream with {} bytes", d.written.len(), d.read.len()));
                 } else if !d.written.is_empty() {
@@ -227,7 +237,7 @@ fn exec(c: &Cfg, render: bool) -> RunOutput {
             wit |= W_ALL_DONE;
         }
         for side in 0..2 {
-            if w.task_done(side) {
+            if w.task_done(side) && c.wlimit == 0 {
                 push_viol(&mut viol, "tung.task-ended", format!("the connection task of side {side} ended ({:?}) although nobody closed anything", w.task_result[side].borrow()));
             }
         }
@@ -369,7 +379,7 @@ pub fn run(args: &Args) -> Report {
                 if two {
                     streams.push((2, 1, vec![Op::WV(vec![0, 3, 0, 2]), Op::W(70), Op::Burst(a.0 as usize + 1, 1)], vec![Op::W(126), Op::WV(vec![1, 0, 0, 4])]));
                 }
-                let cfg = Cfg { a, b, cap, streams, rd, horizon: 20_000 };
+                let cfg = Cfg { a, b, cap, streams, rd, horizon: 20_000, wlimit: 0 };
                 let label = format!("{}{} | {}", LABEL_PREFIX, if two { "2 streams (the second opened by B)" } else { "1 stream" }, describe(&cfg));
                 // (k <= 1 gives only some hundred schedules per case: most steps have no alternative. The quick tier goes to
                 // k <= 2 except over the 7-byte pipe, whose executions are ten times longer)
@@ -384,16 +394,25 @@ pub fn run(args: &Args) -> Report {
     for (a, b, cap, rd) in [((2u32, 1u32), (2u32, 1u32), 0usize, [4096usize, 7]), ((1, 1), (3, 4), 0, [7, 4096]), ((3, 4), (1, 1), 0, [1, 1]), ((2, 1), (3, 4), 64, [4096, 4096]), ((3, 4), (2, 1), 64, [7, 7]), ((1, 1), (2, 1), 7, [4096, 7])] {
         let streams = vec![(1u8, 0usize, vec![Op::W(300), Op::W(70_000), Op::W(1)], vec![Op::W(2), Op::WV(vec![1, 0, 1])]), (2, 1, vec![Op::W(70_000)], vec![Op::Burst(b.0 as usize + 2, 1)])];
         let streams = if cap == 7 { streams[..1].to_vec() } else { streams };
-        let cfg = Cfg { a, b, cap, streams, rd, horizon: 400_000 };
+        let cfg = Cfg { a, b, cap, streams, rd, horizon: 400_000, wlimit: 0 };
         let label = format!("{}70 000-byte writes | {}", LABEL_PREFIX, describe(&cfg));
         cases.push(Case { try_unbounded: false, max_k: if cap == 0 { if thorough { 2 } else { 1 } } else if thorough && cap == 64 { 1 } else { 0 }, label, exec: Box::new(move |r| exec(&cfg, r)) });
+    }
+    // WebSockets with a bounded write buffer (4096 octets, nothing buffered before it is written out) and one write that
+    // does not fit between writes that do: the transport refuses that message; whatever happens to the connection then,
+    // the reader never sees the later bytes behind a hole
+    for (a, b) in [((2u32, 1u32), (2u32, 1u32)), ((3, 4), (1, 1))] {
+        let streams = vec![(1u8, 0usize, vec![Op::W(100), Op::W(8000), Op::W(100), Op::W(3)], vec![Op::W(2), Op::W(5000), Op::W(2)])];
+        let cfg = Cfg { a, b, cap: 0, streams, rd: [4096, 7], horizon: 20_000, wlimit: 4096 };
+        let label = format!("{}write buffer of the WebSockets limited to 4096 octets, writes of 8000 / 5000 among small ones | {}", LABEL_PREFIX, describe(&cfg));
+        cases.push(Case { try_unbounded: false, max_k: 1, label, exec: Box::new(move |r| exec(&cfg, r)) });
     }
     // "writes of any size": ONE write of 17 000 000 bytes (more than the 16 MiB a WebSocket frame may carry under
     // tungstenite's default configuration, which is what the shipped binaries use); canonical schedule only
     {
         let (a, b) = ((2u32, 1u32), (2u32, 1u32));
         let streams = vec![(1u8, 0usize, vec![Op::W(100), Op::W(17_000_000), Op::W(1)], vec![Op::W(2)])];
-        let cfg = Cfg { a, b, cap: 0, streams, rd: [65_536, 4096], horizon: 400_000 };
+        let cfg = Cfg { a, b, cap: 0, streams, rd: [65_536, 4096], horizon: 400_000, wlimit: 0 };
         let label = format!("{}one write of 17 000 000 bytes | {}", LABEL_PREFIX, describe(&cfg));
         cases.push(Case { try_unbounded: false, max_k: 0, label, exec: Box::new(move |r| exec(&cfg, r)) });
     }
